@@ -19,7 +19,15 @@ PROP = {'rule': 'rapid state machine over GroupQuotaManager (unit core: the plug
          'the default quota, rare migrate cycle, quota creation prefers awaited names) and Reserve/Unreserve also issued while a pod is '
          'parked, including after its own quota has appeared (the plugin then routes the call to that quota); where such a reservation '
          'is charged (default or own quota) follows the manager, everything else is asserted; non-trivial = a reservation taken or rolled '
-         'back while the pod is parked. Unit coreConcurrentBurst (no -race): chain root <- 1-3 ancestors <- leaf with max 2-12 units, a '
+         'back while the pod is parked. Units coreMigrateRace / pluginMigrateRace: the parked-pod generator with the migrate cycle always '
+         'run in its two steps (snapshot of the default quota\'s pod cache, then the loop body per pod - for the plugin unit '
+         'migrateDefaultQuotaGroupsPod split at that point, routing by the plugin) and, with probability 1/2 per pod, one generated event '
+         '(reserve / unreserve / pod update / pod delete on a snapshot pod) delivered in between, as the scheduling cycle and the informer '
+         'do while the migration goroutine walks its snapshot; model: a pod moves iff at that moment it is still counted in the default '
+         'quota and the label of its last delivered object names an existing quota; non-trivial = a migrate step for a pod that was moved, '
+         'deleted or updated since the snapshot. In every plugin unit about half of the quota and pod deletes are delivered as '
+         'cache.DeletedFinalStateUnknown{Key, Obj} values (tombstones; which ones is derived from the object\'s name and resource version, '
+         'not drawn). Unit coreConcurrentBurst (no -race): chain root <- 1-3 ancestors <- leaf with max 2-12 units, a '
          'base load, 2-6 goroutines each owning 1-2 pods and applying a generated pattern of add/resize/delete events (sizes 1, 2, '
          'gap-to-max, gap+1, max) repeated 1-400 times so the leaf keeps crossing its max; all joined, then the same oracle at quiescence; '
          'non-trivial = a goroutine that both grows and shrinks (>= 50 calls), >= 2 growing goroutines, >= 200 calls.',
@@ -41,6 +49,8 @@ PROP = {'rule': 'rapid state machine over GroupQuotaManager (unit core: the plug
                  'generated lists, each pod belongs to one goroutine, the oracle runs after all goroutines are joined), but whether a lost '
                  'update between concurrent pod events is provoked depends on the Go scheduler and the machine load; detection is '
                  'probabilistic and needs GOMAXPROCS >= 2 (the driver sets 16)',
+                 'the interleaving of the migrate cycle with other events is harness-owned and at the granularity of whole manager calls '
+                 '(each takes the manager\'s lock): snapshot, optional event, per-pod migrate step',
                  'for a pod reserved while it is parked in the default quota although its own quota already exists, either quota is accepted '
                  'as the place where the reservation is charged (the statement does not fix it); it must be charged exactly once'],
  'units': [{'name': 'core',
